@@ -214,6 +214,14 @@ func (fr *Frame) wrote(comp string) {
 
 func (fr *Frame) setComp(st *State, name, sort, term string) {
 	fr.u.compInit(name, sort)
+	if len(term) > 400 {
+		// name large heap terms: an update mentions the previous heap twice, so chains of updates double in size
+		n := fr.u.S.fresh("H_"+name, sort)
+		if !fr.dry {
+			fr.u.assert(eq(n, term))
+		}
+		term = n
+	}
 	st.comps[name] = term
 	fr.wrote(name)
 }
@@ -521,8 +529,7 @@ func (fr *Frame) execInstr(b *ssa.BasicBlock, idx int, ins ssa.Instruction, st *
 		x := fr.val(ins.X)
 		xs := fr.termOf(x)
 		so := u.S.sortOf(ins.X.Type())
-		fn := "mi_" + mangle(shortTypeName(ins.X.Type()))
-		u.S.declareFun(fn, []string{so}, "Int")
+		fn := u.S.boxFun(mangle(shortTypeName(ins.X.Type())), so)
 		term := app(fn, xs)
 		if !fr.dry {
 			u.assert("(> " + term + " 0)")
